@@ -129,6 +129,25 @@ def main(tier):
             jobs.append((S.case_from_cfg(s["cfg"], **var), s["sched"]))
         for n, s in enumerate(S.sample(rng, sch3, n3)):
             jobs.append((S.case_from_cfg(s["cfg"], engine="basic", system="h2o_h2", molid=[0, 1]), s["sched"]))
+        # always-run schedules: hard kills right after a checkpoint whose interval wrote rows of only one kind
+        # (vector rows only / data rows only / xyz only), at the first and at a later checkpoint
+        def cfgd(steps, ckpt, xyz=0, **cad):
+            c = {s: 0 for s in S.STREAMS}
+            c.update(cad)
+            return dict(steps=steps, cad=c, xyz=xyz, ckpt=ckpt, print=1)
+
+        forced = [
+            (cfgd(5, 2, coordinates=1), [["next", 1, "hard"]]),
+            (cfgd(5, 2, coordinates=1), [["next", 3, "hard"]]),
+            (cfgd(8, 2, data=4, velocities=1), [["next", 5, "hard"]]),
+            (cfgd(8, 2, data=4, velocities=1), [["next", 1, "hard"], ["next", 5, "hard"]]),
+            (cfgd(6, 3, data=1), [["next", 2, "hard"]]),
+            (cfgd(6, 3, xyz=1, forces=2), [["replace", 2, "hard"], ["next", 5, "hard"]]),
+            (cfgd(7, 2, data=3, coordinates=2, velocities=0, forces=0), [["tmp", 3, "hard"]]),
+            (cfgd(6, 2, data=0, forces=1, xyz=2), [["next", 3, "hard"], ["scr", 5, "soft"]]),
+        ]
+        for n, (cfg, sched) in enumerate(forced):
+            jobs.append((S.case_from_cfg(cfg, **VARIANTS[n % 3]), sched))
         for n, (case, _) in enumerate(jobs):
             case["id"] = "c%05d" % n
         results = S.run_all(jobs, scratch)
